@@ -216,6 +216,80 @@ impl Val {
         self.render(&mut s);
         s
     }
+    /// inverse of [render] (corpus and replay files)
+    pub fn parse(text: &str) -> Option<Val> {
+        let mut toks: Vec<String> = Vec::new();
+        let mut cur = String::new();
+        for c in text.chars() {
+            match c {
+                '(' | ')' => {
+                    if !cur.is_empty() {
+                        toks.push(std::mem::take(&mut cur));
+                    }
+                    toks.push(c.to_string());
+                }
+                ' ' => {
+                    if !cur.is_empty() {
+                        toks.push(std::mem::take(&mut cur));
+                    }
+                }
+                c => cur.push(c),
+            }
+        }
+        if !cur.is_empty() {
+            toks.push(cur);
+        }
+        fn unhex(s: &str) -> Option<String> {
+            let b: Option<Vec<u8>> = (0..s.len() / 2).map(|i| u8::from_str_radix(s.get(2 * i..2 * i + 2)?, 16).ok()).collect();
+            String::from_utf8(b?).ok()
+        }
+        fn one(t: &[String], i: &mut usize) -> Option<Val> {
+            let tok = t.get(*i)?.clone();
+            *i += 1;
+            if tok != "(" {
+                return Some(match tok.as_str() {
+                    "u" => Val::Unit,
+                    "n" => Val::None,
+                    "b0" => Val::Bool(false),
+                    "b1" => Val::Bool(true),
+                    x if x.starts_with('i') => Val::Int(x[1..].parse().ok()?),
+                    x if x.starts_with('f') => Val::Float(u64::from_str_radix(&x[1..], 16).ok()?),
+                    x if x.starts_with('s') => Val::Str(unhex(&x[1..])?),
+                    _ => return None,
+                });
+            }
+            let head = t.get(*i)?.clone();
+            *i += 1;
+            let mut items = Vec::new();
+            let mut keys = Vec::new();
+            let mut idx = 0usize;
+            if head == "V" {
+                idx = t.get(*i)?.parse().ok()?;
+                *i += 1;
+            }
+            while t.get(*i)? != ")" {
+                if head == "M" {
+                    let k = t.get(*i)?.clone();
+                    *i += 1;
+                    keys.push(unhex(k.strip_prefix('s')?)?);
+                }
+                items.push(one(t, i)?);
+            }
+            *i += 1;
+            Some(match head.as_str() {
+                "S" => Val::Some(Box::new(items.into_iter().next()?)),
+                "O" => Val::Ok(Box::new(items.into_iter().next()?)),
+                "E" => Val::Err(Box::new(items.into_iter().next()?)),
+                "L" => Val::Seq(items),
+                "M" => Val::Map(keys.into_iter().zip(items).collect()),
+                "V" => Val::Variant(idx, items),
+                _ => return None,
+            })
+        }
+        let mut i = 0;
+        let v = one(&toks, &mut i)?;
+        if i == toks.len() { Some(v) } else { None }
+    }
     /// a value counts as trivial when it has no structure at all (a primitive)
     pub fn nontrivial(&self) -> bool {
         !matches!(self, Val::Int(_) | Val::Float(_) | Val::Bool(_) | Val::Unit | Val::Str(_))
